@@ -31,6 +31,12 @@ type ltOp struct {
 	N   uint64   `json:"n,omitempty"`
 	L   uint64   `json:"l,omitempty"`
 	Has bool     `json:"has,omitempty"`
+	// finish only: how the request's tracking is ended — "" FinishRequest, "err" FinishWithError(unknown failure),
+	// "cancelled" FinishWithError(RequestCancelled), "clear" ResponseStream.ClearRequest.  All four must release the
+	// request's tracking state (the model has one LFinish); the three error forms do not report completeness, so the
+	// driver fills that one bit of the observation from the script (no missing link recorded for the request since it
+	// started) — what is compared for them is the tracker state after the call and every later send decision.
+	Mode string `json:"mode,omitempty"`
 }
 
 // ltKeyString: key 0 is the empty string — a request carrying it is keyed (its own scope), not keyless
@@ -91,9 +97,13 @@ func runLtCase(c ltCase) (obs []string, sends, skips int) {
 		}
 		return s
 	}
+	miss := map[uint64]bool{}
 	for _, o := range c.Ops {
 		out := "ONone"
 		s := stream(o.R)
+		if o.K == "record" && !o.Has {
+			miss[o.R] = true
+		}
 		switch o.K {
 		case "dedup":
 			s.DedupKey(ltKeyString(o.Key))
@@ -122,11 +132,28 @@ func runLtCase(c ltCase) (obs []string, sends, skips int) {
 				return nil
 			})
 		case "finish":
-			_ = s.Transaction(func(rb responseassembler.ResponseBuilder) error {
-				st := rb.FinishRequest()
-				out = fmt.Sprintf("OFin %s", cw.Bool(st == graphsync.RequestCompletedFull))
-				return nil
-			})
+			switch o.Mode {
+			case "err", "cancelled":
+				code := graphsync.RequestFailedUnknown
+				if o.Mode == "cancelled" {
+					code = graphsync.RequestCancelled
+				}
+				_ = s.Transaction(func(rb responseassembler.ResponseBuilder) error {
+					rb.FinishWithError(code)
+					return nil
+				})
+				out = fmt.Sprintf("OFin %s", cw.Bool(!miss[o.R]))
+			case "clear":
+				s.ClearRequest()
+				out = fmt.Sprintf("OFin %s", cw.Bool(!miss[o.R]))
+			default:
+				_ = s.Transaction(func(rb responseassembler.ResponseBuilder) error {
+					st := rb.FinishRequest()
+					out = fmt.Sprintf("OFin %s", cw.Bool(st == graphsync.RequestCompletedFull))
+					return nil
+				})
+			}
+			delete(miss, o.R)
 		}
 		sz := responseassembler.VerifTrackerSizes(ra, p)
 		szs := make([]uint64, len(sz))
@@ -195,7 +222,11 @@ func genLtCase(r *rng.R, maxOps int) (ltCase, string) {
 			c.Ops = append(c.Ops, ltOp{K: "record", R: q, L: uint64(r.Range(1, nlink)), Has: r.P(3, 4)})
 			started[q] = true
 		default:
-			c.Ops = append(c.Ops, ltOp{K: "finish", R: q})
+			mode := []string{"", "", "", "err", "cancelled", "clear"}[r.Intn(6)]
+			if !wellFormed {
+				mode = "" // a key assigned to a request that already has state splits its state over two trackers: the script-side completeness bit would not be the model's
+			}
+			c.Ops = append(c.Ops, ltOp{K: "finish", R: q, Mode: mode})
 			started[q] = false
 		}
 	}
@@ -203,7 +234,11 @@ func genLtCase(r *rng.R, maxOps int) (ltCase, string) {
 	if r.P(3, 4) {
 		for q := uint64(1); q <= uint64(nreq); q++ {
 			if started[q] {
-				c.Ops = append(c.Ops, ltOp{K: "finish", R: q})
+				mode := []string{"", "", "err", "cancelled", "clear"}[r.Intn(5)]
+				if !wellFormed {
+					mode = ""
+				}
+				c.Ops = append(c.Ops, ltOp{K: "finish", R: q, Mode: mode})
 			}
 		}
 	}
